@@ -30,12 +30,23 @@ theorem emitLegs_pure (s : St) (ds : List LegDerive) (hs : AllPure s.ops) : AllP
   | nil => intro acc h; exact h
   | cons d ds ih => intro acc h; exact ih _ (emit_pure acc.1 (.leg d) h rfl)
 
-theorem conjLeg_pure (s : St) (l : Ref) (hs : AllPure s.ops) : AllPure (conjLeg s l).1.ops := by
-  unfold conjLeg
-  simp only []
-  split
-  · exact emit_pure _ _ hs rfl
-  · exact emit_pure _ _ (emitLegs_pure _ _ hs) rfl
+theorem conjLegF_pure (fuel : Nat) (s : St) (l : Ref) (hs : AllPure s.ops) : AllPure (conjLegF fuel s l).1.ops := by
+  induction fuel generalizing s l with
+  | zero => exact emit_pure _ _ hs rfl
+  | succ n ih =>
+    simp only [conjLegF]
+    split
+    · exact emit_pure _ _ hs rfl
+    · refine emit_pure _ _ ?_ rfl
+      suffices h : ∀ (qs : List Ref) (acc : St × List Ref), AllPure acc.1.ops →
+          AllPure (qs.foldl (fun (acc : St × List Ref) q => let r := conjLegF n acc.1 q; (r.1, acc.2 ++ [r.2])) acc).1.ops
+        from h _ (s, []) hs
+      intro qs
+      induction qs with
+      | nil => intro acc h; exact h
+      | cons q qs ihq => intro acc h; exact ihq _ (ih acc.1 q h)
+
+theorem conjLeg_pure (s : St) (l : Ref) (hs : AllPure s.ops) : AllPure (conjLeg s l).1.ops := conjLegF_pure 6 s l hs
 
 theorem conjLegs_pure (s : St) (ls : List Ref) (hs : AllPure s.ops) : AllPure (conjLegs s ls).1.ops := by
   unfold conjLegs
@@ -120,19 +131,32 @@ theorem emitLegs_legs (s : St) (ds : List LegDerive) (hs : ∀ op ∈ s.ops, op.
     · exact h o ho
     · rfl
 
-theorem conjLeg_legs (s : St) (l : Ref) (hs : ∀ op ∈ s.ops, op.isLeg = true) :
-    ∀ op ∈ (conjLeg s l).1.ops, op.isLeg = true := by
+theorem conjLegF_legs (fuel : Nat) (s : St) (l : Ref) (hs : ∀ op ∈ s.ops, op.isLeg = true) :
+    ∀ op ∈ (conjLegF fuel s l).1.ops, op.isLeg = true := by
   have one : ∀ (s : St) d, (∀ op ∈ s.ops, op.isLeg = true) → ∀ op ∈ (s.emit (.leg d)).1.ops, op.isLeg = true := by
     intro s d h o ho
     simp only [St.emit, List.mem_append, List.mem_singleton] at ho
     rcases ho with ho | rfl
     · exact h o ho
     · rfl
-  unfold conjLeg
-  simp only []
-  split
-  · exact one _ _ hs
-  · exact one _ _ (emitLegs_legs _ _ hs)
+  induction fuel generalizing s l with
+  | zero => exact one _ _ hs
+  | succ n ih =>
+    simp only [conjLegF]
+    split
+    · exact one _ _ hs
+    · refine one _ _ ?_
+      suffices h : ∀ (qs : List Ref) (acc : St × List Ref), (∀ op ∈ acc.1.ops, op.isLeg = true) →
+          ∀ op ∈ (qs.foldl (fun (acc : St × List Ref) q => let r := conjLegF n acc.1 q; (r.1, acc.2 ++ [r.2])) acc).1.ops,
+            op.isLeg = true
+        from h _ (s, []) hs
+      intro qs
+      induction qs with
+      | nil => intro acc h; exact h
+      | cons q qs ihq => intro acc h; exact ihq _ (ih acc.1 q h)
+
+theorem conjLeg_legs (s : St) (l : Ref) (hs : ∀ op ∈ s.ops, op.isLeg = true) :
+    ∀ op ∈ (conjLeg s l).1.ops, op.isLeg = true := conjLegF_legs 6 s l hs
 
 theorem conjLegs_legs (s : St) (ls : List Ref) (hs : ∀ op ∈ s.ops, op.isLeg = true) :
     ∀ op ∈ (conjLegs s ls).1.ops, op.isLeg = true := by
